@@ -473,3 +473,233 @@ def data_monitor(api, rng, budget, variants):
 
 
 PROPS['C03']['monitor'] = data_monitor
+
+
+# ----------------------------------------------------------------------------- C04 / C05: FIFO
+def fifo_served(prog_fifo, n):
+    out, odd = [], False
+    q = list(prog_fifo)
+    for _ in range(n):
+        if q:
+            out.append(q.pop(0))
+            odd = False
+        else:
+            out.append(0 if odd else 128)
+            odd = not odd
+    return out
+
+
+def ds_payload(h):
+    """payload bytes implied by a header byte, per the datasheet frame formats"""
+    if h & 0xA0 == 0xA0:
+        return 3
+    if h & 0x40:
+        return 1
+    ax = (h >> 1) & 7
+    if ax == 0:
+        return 1
+    return bin(ax).count('1') * (2 if h & 0x10 else 1)
+
+
+def parse_fifo_payload(payload):
+    """[(None | dict)] per next() call"""
+    out, i = [], 0
+    while i < len(payload):
+        if payload[i] == 0:
+            out.append(None)
+            i += 1
+        else:
+            _, off, ln, ty, x, y, z, tm, c1, c2, c3 = payload[i:i + 11]
+            out.append({'off': off, 'len': ln, 'type': ['data', 'time', 'ctrl'][ty],
+                        'x': None if x == 0 else x - 100000, 'y': None if y == 0 else y - 100000, 'z': None if z == 0 else z - 100000,
+                        'time': None if tm == 0 else tm - 1,
+                        'src': None if c1 == 0 else bool(c1 - 1), 'bw': None if c2 == 0 else bool(c2 - 1), 'acc1': None if c3 == 0 else bool(c3 - 1)})
+            i += 11
+    return out
+
+
+def check_fifo_safety(prog, r):
+    """C05 on one read_fifo_frames call"""
+    if r.status == 'panic':
+        return 'panic while iterating the frames of %r' % r.call
+    if r.status != 'ok':
+        return None
+    n = r.call.args[0]
+    buf = fifo_served(prog_fifo_before(prog, r), n)
+    answers = parse_fifo_payload(r.payload)
+    if len(answers) != n + 2:
+        return 'expected %d answers, got %d' % (n + 2, len(answers))
+    lo = 0
+    for a in answers:
+        if a is None:
+            continue
+        if a['off'] < lo:
+            return 'frame at offset %d overlaps / precedes the previous one (ends at %d)' % (a['off'], lo)
+        if a['off'] + a['len'] > n:
+            return 'frame [%d,%d) exceeds the buffer of %d bytes' % (a['off'], a['off'] + a['len'], n)
+        if a['len'] != 1 + ds_payload(buf[a['off']]):
+            return 'frame at %d with header 0x%02X has length %d, header implies %d' % (a['off'], buf[a['off']], a['len'], 1 + ds_payload(buf[a['off']]))
+        lo = a['off'] + a['len']
+    if answers and answers[-1] is not None:
+        return 'iteration still yields after len+1 calls'
+    if None not in answers[:n + 1]:
+        return 'no None within len+1 calls'
+    return None
+
+
+def prog_fifo_before(prog, r):
+    """bytes still queued in the simulated FIFO when call r starts (earlier reads / flushes consumed some)"""
+    q = list(prog.fifo)
+    for c in prog.calls:
+        if c is r.call:
+            break
+        if c.op == 'read_fifo_frames' and not c.faults:
+            q = q[c.args[0]:]
+        elif c.op in ('flush_fifo',) and not c.faults:
+            q = []
+    return q
+
+
+def fifo_random_programs(api, rng, n, max_len=24):
+    out = []
+    alphabet = [0x80, 0x82, 0x84, 0x88, 0x8E, 0x9E, 0x92, 0x9C, 0x96, 0x48, 0x40, 0xA0, 0xA2, 0xE0, 0x00, 0x10, 0x1E, 0x0E, 0xFF, 0x7F, 0x01, 0xC0, 0x60, 0x20]
+    for k in range(n):
+        kind = rng.random()
+        ln = rng.choice([0, 1, 2, 3]) if kind < 0.25 else rng.randint(0, max_len)
+        if kind < 0.6:
+            data = bytes(rng.choice(alphabet) for _ in range(ln))
+        else:
+            data = bytes(rng.getrandbits(8) for _ in range(ln))
+        nread = max(0, ln + rng.choice([0, 0, 0, -1, 1, 2, -2]))
+        out.append(Prog('f%d' % k, rng.choice(['i2c', 'spi']), [Call('read_fifo_frames', [nread])], fifo=data))
+    return out
+
+
+def fifo_encoded_programs(api, rng, n):
+    """encoder-generated streams (spec side: progs.encode_frame), cut at a random point or ended by the empty marker"""
+    out = []
+    for k in range(n):
+        frames = [P.random_frame(rng) for _ in range(rng.randint(0, 6))]
+        enc = [P.encode_frame(f) for f in frames]
+        stream = b''.join(enc)
+        mode = rng.random()
+        if mode < 0.4 and stream:
+            nread = rng.randint(0, len(stream))          # every truncation point
+        elif mode < 0.7:
+            nread = len(stream)                            # ends exactly on a frame boundary
+        else:
+            nread = len(stream) + rng.choice([1, 2, 3, 5])  # runs into the empty marker served by the chip
+        p = Prog('e%d' % k, rng.choice(['i2c', 'spi']), [Call('read_fifo_frames', [nread])], fifo=stream)
+        p.frames, p.encodings = frames, enc
+        out.append(p)
+    return out
+
+
+def check_fifo_decode(prog, r):
+    """C04 on one read of an encoder-generated stream"""
+    if r.status != 'ok':
+        return 'read_fifo_frames returned %s' % r.result_str()
+    n = r.call.args[0]
+    answers = parse_fifo_payload(r.payload)
+    got = []
+    for a in answers:
+        if a is None:
+            break
+        got.append(a)
+    # frames completely inside the first n bytes
+    want, off = [], 0
+    for f, e in zip(prog.frames, prog.encodings):
+        if off + len(e) <= n:
+            want.append((off, f, e))
+            off += len(e)
+        else:
+            break
+    if len(got) != len(want):
+        return 'yielded %d frames from a buffer holding %d complete frames (%d bytes of %r)' % (len(got), len(want), n, [e.hex() for e in prog.encodings])
+    for a, (off, f, e) in zip(got, want):
+        if a['off'] != off or a['len'] != len(e):
+            return 'frame at [%d,%d), encoded frame is at [%d,%d)' % (a['off'], a['off'] + a['len'], off, off + len(e))
+        exp = {'x': None, 'y': None, 'z': None, 'time': None, 'src': None, 'bw': None, 'acc1': None}
+        if f[0] == 'data':
+            exp['type'] = 'data'
+            for bit, nm in ((1, 'x'), (2, 'y'), (4, 'z')):
+                if f[1] & bit:
+                    exp[nm] = f[3][nm]
+        elif f[0] == 'ctrl':
+            exp['type'] = 'ctrl'
+            exp['src'], exp['bw'], exp['acc1'] = bool(f[1] & 1), bool(f[1] & 2), bool(f[1] & 4)
+        else:
+            exp['type'] = 'time'
+            exp['time'] = f[1]
+        for k_, v in exp.items():
+            if a[k_] != v:
+                return 'frame %r at offset %d: accessor %s returned %r, encoded value is %r' % (f, off, k_, a[k_], v)
+    return None
+
+
+def fifo_monitor(pid, encoded):
+    def mon(api, rng, budget, variants):
+        programs = fifo_encoded_programs(api, rng, budget) if encoded else fifo_random_programs(api, rng, budget, max_len=24 if budget < 20000 else 64)
+        recs = run_monitor_programs(programs)
+        viol = []
+        for p in programs:
+            r = recs[p.id][-1]
+            msg = (check_fifo_decode(p, r) if encoded else None) or check_fifo_safety(p, r)
+            if msg:
+                viol.append(violation(pid, p, msg))
+        return {'cases': len(programs), 'violations': viol[:20], 'samples': [p.describe() for p in programs[:2]],
+                'notes': ['encoder-generated frame streams with every kind of ending' if encoded else
+                          'buffers of length 0..3 over a boundary alphabet and random bytes, longer random buffers; judged on slice positions, '
+                          'lengths implied by the header per the datasheet, order, termination, absence of panics']}
+    return mon
+
+
+def judge_fifo_safety(prog, recs):
+    for r in recs[1:]:
+        if r.call.op == 'read_fifo_frames':
+            msg = check_fifo_safety(prog, r)
+            if msg:
+                return msg
+    return None
+
+
+PROPS['C05'] = {
+    'targets': ['props/C05.vo'],
+    'theorems': [('props.C05', n) for n in ['c05_next_total', 'c05_frame_is_subslice', 'c05_progress', 'c05_iteration_terminates',
+                                            'c05_accessors_total', 'c05_frames_disjoint_increasing']],
+    'corr_gen': lambda api, rng, n: fifo_random_programs(api, rng, n),
+    'corr_n': (400, 6000),
+    'monitor': fifo_monitor('C05', False),
+    'monitor_n': (1500, 60000),
+    'judge': judge_fifo_safety,
+    'statement': 'for every byte list (any length, any content) and every cursor: FifoFrames::next returns without panic or loop-fuel '
+                 'exhaustion; a yielded frame is the sub-slice [cursor, cursor+1+payload(header)) inside the buffer and the cursor moves to its '
+                 'end; a call with the cursor inside the buffer consumes 2..7 bytes, at or past the end it returns None and changes nothing; '
+                 'the for-loop ends within len+1 calls; every accessor on every yielded frame returns without panic; the frames of any '
+                 'number of successive calls are non-overlapping and in increasing order (induction on the call count; header facts by '
+                 'evaluation over all 256 header bytes; refinement of the generated iterator to a specification parser)',
+    'rule': 'correspondence and monitor: malformed / truncated / random buffers; the model and the crate must agree on every next() answer '
+            'of len+2 calls including slice offsets (hook Frame::verif_slice)',
+}
+
+
+def judge_fifo_decode(prog, recs):
+    return None   # replay of encoder-generated programs needs the frame list; the safety judgement is used instead
+
+
+PROPS['C04'] = {
+    'targets': ['props/C04.vo'],
+    'theorems': [('props.C04', n) for n in ['c04_stream_decodes', 'c04_accessors', 'c04_8bit_low_bits_zero', 'c04_read_is_one_burst']],
+    'corr_gen': lambda api, rng, n: fifo_encoded_programs(api, rng, n),
+    'corr_n': (400, 6000),
+    'monitor': fifo_monitor('C04', True),
+    'monitor_n': (1500, 60000),
+    'judge': judge_fifo_safety,
+    'statement': 'for every list of well-formed frames (unbounded length; all 7 axis subsets x both resolutions x all 4096 sample values per '
+                 'axis, control flags, 24-bit times), after any prefix and followed by nothing, the empty marker or a frame cut off by the '
+                 'end of the buffer: the loop over the generated iterator yields exactly the encoded frames in order (induction on the frame '
+                 'list) and every accessor returns the encoded value, None for absent fields (kernel evaluation over the 12-bit / 8-bit '
+                 'sample domain per axis and header); read_fifo_frames is one burst read of the buffer length from 0x14',
+    'rule': 'encoder (spec side) written independently in Coq (proofs/FifoSpec.v) and Python (tools/progs.py); monitor compares frames '
+            'and accessor values with the encoded ones at every truncation point',
+}
